@@ -154,3 +154,9 @@ mut('C09', 'parameter-always-short-form', [('utils.py', "    if float(txt) != fl
 mut('C09', 'consumption-out-of-pretax-income', [(SD, "                         'AlphaIncome * AfterTax + AlphaFin * LAG_F')", "                         'AlphaIncome * INC + AlphaFin * LAG_F')")], ['consumption_function'])
 mut('C09', 'tax-on-after-tax-income', [(SD, "                term = '%s * %s' % (tax_name_used, s.GetVariableName('INC'))", "                term = '%s * %s' % (tax_name_used, s.GetVariableName('AfterTax'))")], ['textbook'], deductive_only=False)
 ben('C09', 'format-helper-compare-floats', [('utils.py', "    if float(txt) != float(value):", "    if not (float(txt) == float(value)):")])
+
+# ---- C04 (asset markets) -----------------------------------------------------------------------------
+mut('C04', 'money-scan-stops-at-first-non-holder', [(SD, "            if not s.HasF:\n                continue\n            if s.Code == self.IssuerShortCode:\n                Logger('Found Issuer', priority=3)", "            if not s.HasF:\n                break\n            if s.Code == self.IssuerShortCode:\n                Logger('Found Issuer', priority=3)")], ['every_sector_of_the_zone_list_examined', 'every_asset_holding_sector', 'one_record_per'])
+mut('C04', 'deposit-holder-not-paid', [(SD, "            s.AddCashFlow('+INT' + self.Code,\n                          '{0}*{1}'.format(self.GetVariableName('LAG_r'), s.GetVariableName('LAG_' + dem_name)),\n                          'Interest received on ' + self.LongName)\n", "")], ['every_holder_in_the_total_is_paid_interest'])
+mut('C04', 'residual-weight-last-only', [(SEC, "            residual_weight += ' - ' + weight", "            residual_weight = '1.0 - ' + weight")], ['residual_weight_is_one_minus'])
+mut('C04', 'term-added-with-wrong-sign', [(SEC, "        term = Term(term)\n        Logger('Adding term {0} to Equation {1} in Sector {2} [ID={3}]'", "        term = Term('-(' + term + ')')\n        Logger('Adding term {0} to Equation {1} in Sector {2} [ID={3}]'")], ['value_added'])
